@@ -129,7 +129,8 @@ def check(tier, seed):
     err, impl = run_impl(hs, "main")
     if err:
         ck.obligation("correspondence run", False, err[:1500])
-        ck.violation({"kind": "harness", "log": err, "broken": "C11 harness"}, "harness failed: " + err[:300], no_input=True)
+        if not V.crash_violation(ck, err, os.path.join(V.WORK, "c11_main.out"), hs, lambda h: run_impl([h], "crash")[0], "mux manager + MultiClientConn harness"):
+            ck.violation({"kind": "harness", "log": err, "broken": "C11 harness"}, "harness failed: " + err[:300], no_input=True)
         return ck.finish()
     diffs, mon, distinct, rpcs = [], [], set(), 0
     for i, h in enumerate(hs):
@@ -176,6 +177,8 @@ def replay(data):
         return 1
     err, impl = run_impl([data["history"]], "replay")
     print(err or "\n".join(impl[0]))
+    if data.get("kind") == "crash":
+        return 1 if err else 0
     b = monitor(data["history"], impl[0]) if not err else ["harness error"]
     print("MONITOR", b)
     return 1 if b else 0
